@@ -347,6 +347,10 @@ func supervise(pc *ParentCtx, race bool, shard, n int, out *ShardResult, mu *syn
 			k = r.AbortCase
 			// Re-run the case alone with 10x budget: only exceeding that is a hang.
 			ok := rerunAlone(pc, exe, race, k, 10)
+			if !ok && p.CrashInconclusive {
+				pc.Inconclusive(fmt.Sprintf("case %d exceeded the %s budget (totality is not this property's subject): %s", k, r.Abort, tailFile(errF, 400)))
+				ok = true
+			}
 			mu.Lock()
 			if !ok {
 				out.Violations = append(out.Violations, Violation{Prop: p.ID, Sig: "hang-" + r.Abort, Case: k,
@@ -365,6 +369,11 @@ func supervise(pc *ParentCtx, race bool, shard, n int, out *ShardResult, mu *syn
 			if k < 0 {
 				pc.Inconclusive(fmt.Sprintf("shard %s died before its first case: %s: %s", tag, status, tailFile(errF, 600)))
 				return
+			}
+			if p.CrashInconclusive {
+				pc.Inconclusive(fmt.Sprintf("child died (%s) in case %d (totality is not this property's subject): %s", status, k, headFile(errF, 400)))
+				from = k + 1
+				continue
 			}
 			mu.Lock()
 			out.Violations = append(out.Violations, Violation{Prop: p.ID, Sig: "process-death", Case: k,
